@@ -81,7 +81,7 @@ func c15Values() []V {
 	}
 }
 
-var c15Names = []string{"$a", "$ab", "$a-b", "$a_1", "$1", "$NUMBER"}
+var c15Names = []string{"$a", "$ab", "$a-b", "$a_1", "$1", "$NUMBER", "$MODULE"} // $MODULE: also the name of the module header line
 
 func substV(t V, m map[string]V) V {
 	switch t.K {
@@ -127,7 +127,7 @@ func init() {
 					if i == j {
 						continue
 					}
-					if tier != "thorough" && !(i == 0 || (i == 2 && j == 0) || (i == 4 && j == 5)) {
+					if tier != "thorough" && !(i == 0 || (i == 2 && j == 0) || (i == 4 && j == 5) || (i == 6 && j == 0)) {
 						continue
 					}
 					out = append(out, nm{a, b})
